@@ -27,6 +27,7 @@ def main():
     ap.add_argument('--checks')
     ap.add_argument('--tier', default='quick')
     ap.add_argument('--demo', action='store_true', help='also run the demonstration with and without the change')
+    ap.add_argument('--no-checks', action='store_true')
     ap.add_argument('--tests', action='store_true', help='also run the repository test-suite with the change')
     args = ap.parse_args()
     d = (VERIF / args.dir).resolve() if not os.path.isabs(args.dir) else Path(args.dir)
@@ -45,12 +46,18 @@ def main():
         out.mkdir(exist_ok=True)
         env = dict(os.environ, VERIF_REPO=str(wt), PYTHONPATH=str(wt), VERIF_EVIDENCE_DIR=str(out / 'evidence'),
                    VERIF_REPLAY_DIR=str(out / 'replays'))
-        demo = d / 'demo.py'
+        # the demonstrations were written to run as <worktree>/seeded/<x>/demo.py
+        demo_dir = wt / 'seeded' / 'x'
+        demo_dir.mkdir(parents=True, exist_ok=True)
+        for f in d.iterdir():
+            if f.is_file() and f.name != 'result.json':
+                shutil.copy(f, demo_dir / f.name)
+        demo = demo_dir / 'demo.py'
         if args.demo and demo.exists():
             sh(['/venv/bin/python', 'build_fjcore.py'], cwd=wt)
             r0 = sh(['/venv/bin/python', str(demo)], cwd=wt, timeout=600)
             result['demo_clean_rc'] = r0.returncode
-        r = sh(['git', '-C', str(wt), 'apply', str(d / 'patch.diff')])
+        r = sh(['git', '-C', str(wt), 'apply', '--exclude=seeded/*', str(d / 'patch.diff')])
         if r.returncode:
             print('patch does not apply:', r.stderr)
             result['error'] = 'patch does not apply: ' + r.stderr[-500:]
@@ -67,6 +74,11 @@ def main():
                     timeout=1800)
             result['tests_rc'] = rt.returncode
             result['tests_tail'] = rt.stdout.strip().splitlines()[-1:] if rt.stdout.strip() else []
+        prev = {}
+        if args.no_checks and (d / 'result.json').exists():
+            prev = json.loads((d / 'result.json').read_text()).get('checks', {})
+            result['checks'] = prev
+            checks = []
         for c in checks:
             t = time.time()
             r = sh(['/venv/bin/python', str(VERIF / 'run_check.py'), c, '--tier', args.tier], env=env, cwd=VERIF,
